@@ -2,7 +2,7 @@
    read_col v1/v2 call shapes, schema level computation, map zipping).  Values are naturals
    (the harness maps every physical value to its index in a per-case value table). *)
 From Coq Require Import NArith ZArith List String Bool.
-From Pq Require Import Base.Bytes Format.Nested Impl.CAssemble Impl.CAssembleFixed Proofs.CAssembleProofs
+From Pq Require Import Base.Bytes Format.Nested Impl.CAssemble Impl.CShapes Impl.CAssembleFixed Proofs.CAssembleProofs
   Proofs.CAssembleV2Proofs Proofs.PyDictProofs Extract.Sx.
 Import ListNotations.
 Open Scope string_scope.
@@ -219,9 +219,26 @@ Definition h_py_dict (a : list sx) : sx :=
   | _ => err "arity"
   end.
 
+(* (is_list_like path_len annot nchild nchild2 mid leaf) -> 0|1 : model of schema._is_list_like;  (refuses path) -> 0|1 *)
+Definition h_is_list_like (a : list sx) : sx :=
+  match a with
+  | [pl; an; n1; n2; mid; leaf] =>
+    match as_nat pl, as_bool an, as_nat n1, as_nat n2, as_reptype mid, as_reptype leaf with
+    | Some pl, Some an, Some n1, Some n2, Some mid, Some leaf => sbool (is_list_like pl an n1 n2 mid leaf)
+    | _, _, _, _, _, _ => err "args"
+    end
+  | _ => err "arity"
+  end.
+Definition h_refuses (a : list sx) : sx :=
+  match a with
+  | [p] => match as_list_of as_reptype p with Some p => sbool (refuses p) | None => err "args" end
+  | _ => err "arity"
+  end.
+
 Definition table : list (string * handler) :=
   [("shred", h_shred); ("assemble_spec", h_assemble_spec); ("assemble_page", h_assemble_page);
    ("run_v1", h_run_v1); ("run_v2", h_run_v2); ("sch", h_sch); ("shape_levels", h_shape_levels);
    ("zip_maps", h_zip_maps); ("split_guard", h_split_guard); ("v2_branch", h_v2_branch);
    ("assemble_page_fx", h_assemble_page_fx); ("run_v1_fx", h_run_v1_fx); ("v2_guard", h_v2_guard);
-   ("nested_levels", h_nested_levels); ("run_v1_py", h_run_v1_py); ("py_dict", h_py_dict)].
+   ("nested_levels", h_nested_levels); ("run_v1_py", h_run_v1_py); ("py_dict", h_py_dict);
+   ("is_list_like", h_is_list_like); ("refuses", h_refuses)].
